@@ -105,8 +105,6 @@ def relational_part(V, prop, relkind, tr, sd, workers=None, ncap=None):
         seq = (i % 2 == 0)
         opts = dict(c04.PF_OPTS, mode="sequential" if seq else "hydraulics", max_iter_therm=60, tol_T=1e-9)
         prm = row_params(n["net"])
-        if not seq:
-            prm["tn"] = 350.0       # hydraulics only: start temperatures equal to the feed temperature (see finding F30)
         if relkind == "numba":
             prm["tn"], prm["tn_step"] = 300.0, 9.0        # different junction temperatures (gas norm factors at both ends)
             for q in n["net"]["N"]:
@@ -129,7 +127,7 @@ def relational_part(V, prop, relkind, tr, sd, workers=None, ncap=None):
                          "relkind": "numba", "rseed": t, "ropts": {"use_numba": True}})
     cases = [c for c in core.pmap(pf.run_case_related, jobs, chunksize=12, workers=workers) if "skip" not in c]
     if relkind == "rev":
-        # the known orientation dependence in hydraulics-only mode when a feeder's temperature differs from tfluid_k (F30)
+        # orientation dependence in hydraulics-only mode when a feeder's temperature differs from tfluid_k (F30, repaired)
         mini = {"J": [dict(lab=1, svc=True), dict(lab=2, svc=True)],
                 "E": [dict(tbl="valve", lab=1, a=2, b=1, et="ju", svc=True, ca=True, cj=0, typ="", sec=1)],
                 "N": [dict(tbl="ext_grid", lab=1, j=1, svc=True, typ="pt"), dict(tbl="sink", lab=1, j=2, svc=True, typ="")]}
